@@ -26,7 +26,7 @@ rm $wt/$pkg/zz_seed_demo_test.go
 fails=$(grep -c "^--- FAIL" $out/pkgtests_with.log)
 res "existing tests of ./$pkg with change: rc=$rc_pkg failing=$(grep '^--- FAIL' $out/pkgtests_with.log | tr '\n' ' ')"
 # the registered check against the change
-(cd /verif && VERIF_REPO=$wt ./check $id $tier > $out/check.log 2>&1); rc_chk=$?
+(cd /verif && VERIF_ONLY=1 VERIF_REPO=$wt ./check $id $tier > $out/check.log 2>&1); rc_chk=$?
 res "check $id $tier against change: rc=$rc_chk $(grep -h 'signature:' $out/check.log | head -3 | tr '\n' ' ')"
 # demo WITHOUT change
 git -C $wt checkout -- . >/dev/null 2>&1
